@@ -106,7 +106,11 @@ HEADER_U = HEADER + ('From CF Require Import C18.Uart.\n'
                      '  let \'(os, b2, l2) := uart_run ops b (negb (lock =? 0)) in\n'
                      '  zlen b2 :: (if l2 then 1 else 0) :: flat os.\n')
 
-HEADER_C = HEADER + ('Definition cpx_case (takes : list Z) (s : sock) (evs : list cev) : list Z :=\n'
+HEADER_C = HEADER + ('Definition cpx_case_reg (fs takes : list Z) (s : sock) (evs : list cev) : list Z :=\n'
+                     '  let \'(c, os) := c_run takes (mk_cs s (r_reg fs) true) evs in\n'
+                     '  zlen (concat (cs_in c)) :: (if cs_open c then 1 else 0) :: flat (map enc_cobs os)\n'
+                     '  ++ concat (map (fun f => enc_queue (cs_rt c f)) qfs).\n'
+                     'Definition cpx_case (takes : list Z) (s : sock) (evs : list cev) : list Z :=\n'
                      '  let \'(c, os) := c_run takes (mk_cs s r_init true) evs in\n'
                      '  zlen (concat (cs_in c)) :: (if cs_open c then 1 else 0) :: flat (map enc_cobs os)\n'
                      '  ++ concat (map (fun f => enc_queue (cs_rt c f)) qfs).\n')
@@ -612,7 +616,7 @@ def _enc_opt(p):
     return [0] if p is None else [1] + _enc_pkt(p)
 
 
-def impl_cpx_session(chunks, takes, events):
+def impl_cpx_session(chunks, takes, events, functions=None):
     """events: ['P'] | ['R', f] | ['S', pkt] | ['T', pkt, k] | ['C'];  pkt = [s, d, f, last, data].
     Drives a real cflib.cpx.CPX (router thread started by its constructor)."""
     import threading
@@ -646,7 +650,7 @@ def impl_cpx_session(chunks, takes, events):
         return b''.join(sock.sent[n0:])
 
     with _quiet():
-        c = cpx.CPX(gate)
+        c = cpx.CPX(gate) if functions is None else cpx.CPX(gate, [_fn_member(f) for f in functions])
         router = c._router
         wait_idle()
         for e in events:
@@ -1478,10 +1482,12 @@ def tie(ctx):
                 evs.append(['T', pkt, rng.randrange(0, 3)])
             else:
                 evs.append(['C'])
-        out, _, info = impl_cpx_session(chunks, takes, evs)
-        terms.append('cpx_case %s %s [%s]' % (coqrun.zlist(takes), _sock_term(chunks), '; '.join(ev_term(e) for e in evs)))
+        regs = rng.sample(FUNCTIONS, rng.randrange(0, 8)) if i % 3 == 0 else None
+        out, _, info = impl_cpx_session(chunks, takes, evs, functions=regs)
+        terms.append('cpx_case_reg %s %s %s [%s]' % (coqrun.zlist(regs or []), coqrun.zlist(takes), _sock_term(chunks),
+                                                     '; '.join(ev_term(e) for e in evs)))
         exp.append(out)
-        ccs.append({'what': 'CPX facade session (router thread) differs from c_run', 'kind': 'cpx', 'takes': takes,
+        ccs.append({'what': 'CPX facade session (router thread) differs from c_run', 'kind': 'cpx', 'takes': takes, 'functions': regs,
                     'chunks': [list(c) for c in chunks], 'events': evs})
         if info['thread_alive_after']:
             dis.append(dict(ccs[-1], what='router thread still alive after the session was closed'))
@@ -2155,10 +2161,10 @@ def _check_driver_misc():
     return None
 
 
-def _expected_facade(pkts, events):
+def _expected_facade(pkts, events, functions=()):
     """property text for one router: per function, arrival order, from the first receive call on; a transaction is one more
     receiver of its function (it takes the head of the queue after its k router iterations)"""
-    opened, exp_q, arrivals, want = set(), {}, iter(pkts), []
+    opened, exp_q, arrivals, want = set(functions), {f: [] for f in functions}, iter(pkts), []
 
     def arrive():
         a = next(arrivals, None)
@@ -2206,12 +2212,12 @@ def _transaction_case(rng):
     return {'packets': pkts, 'cuts': list(_rand_cuts(rng, L, _bounds(pkts))), 'events': events}
 
 
-def _check_transactions(pkts, cuts, events):
+def _check_transactions(pkts, cuts, events, functions=None):
     """arrivals, receivePacket and makeTransaction mixed on one real CPX (router thread running): every packet that arrived for a
     function after its queue existed is handed out exactly once, in arrival order, to that function's receivers; none is dropped"""
     stream = b''.join(_frame_ref(a[0], a[1], a[2], a[3], 0, a[4]) for a in pkts)
-    out, obs, info = impl_cpx_session(_cut(stream, cuts), [], events)
-    want, exp_q = _expected_facade(pkts, events)
+    out, obs, info = impl_cpx_session(_cut(stream, cuts), [], events, functions=functions)
+    want, exp_q = _expected_facade(pkts, events, functions or ())
     if info['stuck']:
         return {'observed': 'router thread stuck', 'expected': 'session completes'}
     if obs != want:
@@ -2300,6 +2306,7 @@ def _check_backlog(pkts, cuts, events):
 
 _CHECKS = {
     'transaction_loses_queued_packets': lambda c: _check_transactions(c['packets'], c['cuts'], c['events']),
+    'registered_functions_misrouted': lambda c: _check_transactions(c['packets'], c['cuts'], c['events'], functions=c['functions']),
     'encode_ignores_field_change': lambda c: _check_history(c['build'], c['ops']),
     'tcp_driver_session_violated': lambda c: _check_driver(c['items'], c['cuts'], c['takes'], c['events']),
     'tcp_driver_misc': lambda c: _check_driver_misc(),
@@ -2362,7 +2369,7 @@ def oracle(ctx, deep=False):
     def chk(cls, case):
         nonlocal n
         n += 1
-        if cls in seen and (not deep or cls in ('cpx_facade_violated', 'concurrent_writers_tear_frames', 'router_blocks_on_backlog', 'tcp_driver_session_violated', 'crtp_lost_at_connect', 'transaction_loses_queued_packets')):     # (a failing facade session costs join timeouts)
+        if cls in seen and (not deep or cls in ('cpx_facade_violated', 'concurrent_writers_tear_frames', 'router_blocks_on_backlog', 'tcp_driver_session_violated', 'crtp_lost_at_connect', 'transaction_loses_queued_packets', 'registered_functions_misrouted')):     # (a failing facade session costs join timeouts)
             return
         f = _run_check(cls, case)
         if f is not None:
@@ -2516,6 +2523,19 @@ def oracle(ctx, deep=False):
     for _ in range(ctx.scale(12, 200)):
         dc = _driver_case(rng)
         chk('crtp_lost_at_connect', dict(dc, early=rng.randrange(1, len(dc['items']) + 1)))
+    # 5g. CPX(transport, functions): queues registered at construction, for EVERY subset of the functions, mixed with lazy registration
+    chk('registered_functions_misrouted', {'functions': [2, 5], 'packets': [[1, 3, 2, 0, [0, 0]]], 'cuts': [], 'events': [['P'], ['R', 5], ['R', 2]]})
+    for mask in range(128):
+        fsub = [f for k, f in enumerate(FUNCTIONS) if mask >> k & 1]
+        order = list(FUNCTIONS)
+        rng.shuffle(order)
+        ps = [[rng.choice(TARGETS), rng.choice(TARGETS), f, rng.randrange(2), [k, f]] for k, f in enumerate(order + order[:3])]
+        lazy = rng.sample(FUNCTIONS, 2)
+        evs = [['R', f] for f in lazy] + [['P']] * len(ps) + [['R', f] for f in FUNCTIONS for _ in range(3)]
+        chk('registered_functions_misrouted', {'functions': fsub, 'packets': ps, 'cuts': [], 'events': evs})
+    for _ in range(ctx.scale(60, 1000)):
+        tc = _transaction_case(rng)
+        chk('registered_functions_misrouted', dict(tc, functions=rng.sample(FUNCTIONS, rng.randrange(0, 8))))
     # 5f. transactions are receivers of their function: histories mixing arrivals, receivePacket and makeTransaction (smallest first)
     a_, b_, c_ = [1, 3, 5, 0, [0, 0]], [1, 3, 5, 1, [0, 1]], [1, 3, 2, 0, [0, 2]]
     req_ = [3, 1, 5, 0, [200, 1]]
@@ -2572,7 +2592,7 @@ def oracle(ctx, deep=False):
 def _shrink_history(f):
     """drop events (and trailing packets) one at a time while the history still fails"""
     cls, case = f['class'], dict(f['case'])
-    best, changed, budget = f, True, 120
+    best, changed, budget = f, True, 200
     while changed and budget > 0:
         changed = False
         cands = []
@@ -2583,6 +2603,8 @@ def _shrink_history(f):
             cands.append(dict(case, packets=ps[:-1], cuts=[]))
         if case.get('cuts'):
             cands.append(dict(case, cuts=[]))
+        for i in range(len(case.get('functions') or [])):
+            cands.append(dict(case, functions=case['functions'][:i] + case['functions'][i + 1:]))
         for c in cands:
             budget -= 1
             r = _run_check(cls, c)
@@ -2593,7 +2615,7 @@ def _shrink_history(f):
 
 
 def _shrink(f):
-    if f['class'] in ('transaction_loses_queued_packets', 'router_blocks_on_backlog') and len(f['case'].get('events', [])) < 60:
+    if f['class'] in ('transaction_loses_queued_packets', 'router_blocks_on_backlog', 'registered_functions_misrouted') and len(f['case'].get('events', [])) < 60:
         return _shrink_history(f)
     """greedy minimisation (fewer packets, shorter payloads, fewer cuts, shorter script)"""
     cls, case = f['class'], dict(f['case'])
